@@ -83,8 +83,9 @@ def run(ctx):
         for which in ("simple", "sar"):
             for r in range(ctx.pick(2, 8)):
                 lo, hi = ranges[(b + r) % len(ranges)]
-                if which == "sar":
-                    lo = 0.0
+                if which == "sar" and r % 2 == 0:
+                    lo = 0.0        # (the other half keeps a non-zero range minimum: the SAR converters measure from
+                                    # 0 V whatever it is, and the noisy one must still reproduce the plain one)
                 jobs.append({"b": b, "lo": lo, "hi": hi, "which": which, "seed": ctx.seed * 1000 + b * 10 + r})
     traces = check.pmap(adc.law_job, jobs, chunksize=4)
     ctx.cov["recorded_random"] += len(traces)
